@@ -11,7 +11,8 @@ RULE = ("cases are ordered pairs of trees: (tree, fresh deep copy), (tree, copy 
         "every difference kind on small trees (name, content, tail, prefix, attribute/extras/nsmap key added, removed, value "
         "changed, child appended, inserted, removed, two children swapped) and a sample on larger ones, plus unrelated random "
         "pairs; each pair is asked in both argument orders. distinct = distinct (tree value, other tree value) pairs; "
-        "non-trivial = pairs of distinct objects")
+        "non-trivial = pairs of distinct objects"
+        ". Also: pairs compared before the edit, in-place dictionary edits, shape-only differences, canonically equivalent but differently composed text, subtrees against detached and re-attached copies, inner nodes of documents that differ in an inherited namespace map")
 ASSUMPTIONS = [
     "reference comparison: name, content, tail, prefix, attributes/extras/nsmap as dictionaries (order-insensitive), children "
     "recursively and in order",
